@@ -2,7 +2,7 @@
 from .common import cssutils, init, outcome
 import cssutils.css as css
 
-FORM_TEXT = {"p|e": "p|e", "q|e": "q|e", "*|e": "*|e", "|e": "|e", "e": "e", "[p|a]": "[p|a]", "z|e": "z|e"}
+FORM_TEXT = {"p|e": "p|e", "q|e": "q|e", "*|e": "*|e", "|e": "|e", "e": "e", "[p|a]": "[p|a]", "z|e": "z|e", ":not(p|e)": ":not(p|e)", ":not(e)": ":not(e)"}
 
 
 def uri_name(u):
@@ -19,7 +19,7 @@ def items_of(rule, form=None):
         for it in sel.seq:
             if isinstance(it.value, tuple):
                 u, name = it.value
-                kind = "default" if (form == "e" or (form is None and "|" not in sel.selectorText)) else "explicit"
+                kind = "default" if (form in ("e", ":not(e)") or (form is None and "|" not in sel.selectorText)) else "explicit"
                 out.append({"uri": uri_name(u), "local": name, "kind": kind})
     return out
 
@@ -165,6 +165,11 @@ def run_trace(item):
     cssutils.ser.prefs.keepEmptyRules = True
     w = World()
     w.comments = bool(item.get("comments"))
+    if item.get("head"):
+        # variant: the sheet is not empty - rules that have nothing to do with namespaces precede whatever the history adds
+        # (@namespace rules still have to end up before them)
+        w.sheet.cssText = {"fontface": '@charset "utf-8"; @font-face { font-family: x } @page { margin: 0 }',
+                           "comment": "/*c*/ @x y;", "variables": "@variables { c: red } @media print { }"}[item["head"]]
     tr = {"id": item["id"], "init": w.project(), "steps": []}
     for a in item["actions"]:
         out, _ = w.apply(a)
